@@ -277,6 +277,9 @@ class PeerConn:
             before = len(self.tls.plain)
             was = self.tls.handshaken
             self.tls.step()
+            if self.tls.handshaken and not was and self.peer.early_data:
+                self.tls.to_send += self.peer.early_data
+                self.tls.step()
             self._flush()
             if self.tls.handshaken and not was:
                 self.events.append(("handshake", self.loop.time()))
@@ -367,6 +370,9 @@ class ScriptedPeer:
         self.garbage_hello = garbage_hello
         self.cipher_chunk = cipher_chunk
         self.conns: list[PeerConn] = []
+        # application bytes the peer puts into the same TCP segment as the last flight of its handshake (TLS 1.2: right
+        # behind its Finished), i.e. before it can have read anything of the request
+        self.early_data: bytes = b""
 
     def set_cert(self, cert: certs.Cert):
         self.cert = cert
